@@ -198,6 +198,7 @@ func (s *server) onAccept(conn Conn) {
 			s.connections.Delete(fd)
 		}
 	}
+	verifPoint(vpAcceptAfterRecheck, nconn, fd)
 
 	// trigger onConnect asynchronously
 	nconn.onConnect()
